@@ -171,6 +171,49 @@ impl<'a> Trace<'a> {
                 }
             }
             if !self.sql_broken {
+                // the account's retained history (terminal migrations of earlier traces) reads back
+                // exactly as it was saved, whatever is done to the migration in progress
+                let sql = self.store.sql.as_ref().unwrap();
+                let mut hist_err = None;
+                for (id, saved) in &sql.history {
+                    self.sh.r.count("retained_history_reads", 1);
+                    match sql.by_id(*id) {
+                        Ok(Some(got)) if &got == saved => {}
+                        Ok(got) => {
+                            let field = got.as_ref().map(|g| model::first_difference(g, saved)).unwrap_or_else(|| "missing".into());
+                            viols.push(Viol {
+                                class: format!("C18:persist:sqlite:retained-history-changed:{field}"),
+                                detail: format!("after {what}: an earlier, terminal migration of the account ({:?} when saved) no longer reads back as saved ({field}); {} retained", saved.status(), sql.history.len()),
+                            });
+                            break;
+                        }
+                        Err(e) => {
+                            hist_err = Some(e);
+                            break;
+                        }
+                    }
+                }
+                if hist_err.is_none() && !sql.history.is_empty() {
+                    match sql.list() {
+                        Ok(l) => {
+                            for (id, saved) in &sql.history {
+                                if l.iter().find(|(i, _)| i == id).map(|(_, st)| *st) != Some(saved.status()) {
+                                    viols.push(Viol {
+                                        class: "C18:persist:sqlite:retained-history-changed:list-status".into(),
+                                        detail: format!("after {what}: list_migrations() no longer shows an earlier terminal migration with its saved status {:?}", saved.status()),
+                                    });
+                                    break;
+                                }
+                            }
+                        }
+                        Err(e) => hist_err = Some(e),
+                    }
+                }
+                if let Some(e) = hist_err {
+                    self.sql_error("get_migration_by_id/list_migrations", e);
+                }
+            }
+            if !self.sql_broken {
                 let sql = self.store.sql.as_ref().unwrap();
                 match sql.row_counts() {
                     Ok((pending, all)) => {
@@ -940,8 +983,24 @@ impl<'a> Trace<'a> {
                 self.mine(1);
             }
             73..=74 => {
+                // half of the time through the store-level cancel (which works on the stored record)
+                let store_level = !self.sql_broken && self.store.sql.is_some() && !model::terminal(self.state.status()) && self.rng.gen_bool(0.5);
+                if store_level {
+                    // make sure the record the cancel works on is the current one
+                    self.persist_and_verify("before store-level cancel");
+                }
                 self.apply(Ev::Cancel, |t| t.state.mark_cancelled());
-                self.persist_and_verify("mark_cancelled");
+                if store_level && !self.sql_broken {
+                    self.sh.r.count("store_level_cancels", 1);
+                    let _ = self.store.mem.replace_migration(&self.state);
+                    match self.store.sql.as_mut().unwrap().cancel() {
+                        Ok(()) => self.store.last_written = Some(self.state.clone()),
+                        Err(e) => self.sql_error("cancel_migration", e),
+                    }
+                    self.persist_and_verify("cancel_migration (store level)");
+                } else {
+                    self.persist_and_verify("mark_cancelled");
+                }
             }
             75 => {
                 self.apply(Ev::Supersede, |t| t.state.mark_superseded());
@@ -1441,7 +1500,27 @@ fn main() {
         let with_sql = rng.gen_range(0..100) < 70;
         let primary_sql = rng.gen_bool(0.5);
         let max_events = rng.gen_range(30..100);
-        let _ = sql.wipe_account();
+        // Between traces the account's rows are removed, except that a migration which ended
+        // TERMINAL is often left behind as retained history (up to 5 records): the next trace then
+        // runs its migration next to earlier ones, as a long-lived wallet does.
+        let keep = match (sql.get(), sql.latest(), sql.list()) {
+            (Ok(None), Ok(Some(last)), Ok(l)) if !l.is_empty() && sql.history.len() < 5 && l.len() == sql.history.len() + 1 && rng.gen_bool(0.75) => {
+                let id = l[0].0;
+                if !sql.history.iter().any(|(i, _)| *i == id) {
+                    sql.history.push((id, last));
+                }
+                true
+            }
+            (Ok(None), _, Ok(l)) if !sql.history.is_empty() && l.len() == sql.history.len() && rng.gen_bool(0.75) => true,
+            _ => false,
+        };
+        if !keep {
+            let _ = sql.wipe_account();
+        }
+        sh.r.set_max("max_retained_history_at_trace_start", sql.history.len() as u64);
+        if !sql.history.is_empty() {
+            sh.r.count("traces_started_with_retained_history", 1);
+        }
         {
             let store = ScriptedStore::new(world, if with_sql { Some(&mut sql) } else { None }, primary_sql);
             let mut t = Trace {
